@@ -7,6 +7,7 @@ import (
 	"bytes"
 	"encoding/json"
 	"fmt"
+	"io"
 	"reflect"
 	"strings"
 	"unicode/utf8"
@@ -461,6 +462,32 @@ func runRoundTrip(m *mon.M, c *Case) {
 		return
 	}
 	m.Class("roundtrip-ok")
+	// the concrete reader types callers commonly pass must decode to the same value as any other reader
+	for _, rk := range []string{"bytes.Buffer", "bytes.Reader", "strings.Reader"} {
+		_, dst2, _ := buildValue(c)
+		var rd io.Reader
+		switch rk {
+		case "bytes.Buffer":
+			rd = bytes.NewBuffer(append([]byte(nil), w.buf...))
+		case "bytes.Reader":
+			rd = bytes.NewReader(w.buf)
+		default:
+			rd = strings.NewReader(string(w.buf))
+		}
+		var err2 error
+		pv, st := mon.Catch(func() { err2 = consumerOf(c).Consume(rd, dst2) })
+		m.Eval(1)
+		if pv != nil {
+			m.Violate("consume-panic/"+c.Codec+"/"+rk+"-reader", fmt.Sprintf("%s Consume from a *%s panicked: %v\n%s", c.Codec, rk, pv, st), c)
+			return
+		}
+		got2 := reflect.ValueOf(dst2).Elem().Interface()
+		if err2 != nil || !reflect.DeepEqual(got2, v) {
+			m.Violate("reader-kinds-disagree/"+c.Codec+"/"+rk, fmt.Sprintf("%s Consume of %s from a *%s: err=%v\n got  %#v\n want %#v (as decoded from a plain io.Reader)", c.Codec, short(w.buf), rk, err2, got2, v), c)
+			return
+		}
+	}
+	m.Class("roundtrip-concrete-readers-ok")
 }
 
 // yamlBlockScalarFeature reports whether the case is a YAML round trip whose text (or one of the
